@@ -217,6 +217,21 @@ impl Exec {
             "bbs" => guard(|| bbs(&ctx.board)),
             "gen" => guard(|| gen(ctx)),
             "genl" => guard(|| genl(ctx)),
+            "attl" => {
+                // attl <w|b>: the long-lived generator's attacked-squares map for one colour, compared on the
+                // spot with a cache-cleared generator's (C02, decided by the harness)
+                let c = if toks[1] == "w" { Color::White } else { Color::Black };
+                guard(|| {
+                    let a = ctx.long.get_attack_targets(&ctx.board, c).0;
+                    ctx.fresh.clear_caches_for_verif();
+                    let f = ctx.fresh.get_attack_targets(&ctx.board, c).0;
+                    if a == f {
+                        format!("attl {} {:x}", toks[1], a)
+                    } else {
+                        format!("attl {} {:x}\n! C02 the long-lived generator reports the squares attacked by {} as {:x}, a new generator as {:x} in [{}]", toks[1], a, if c == Color::White { "white" } else { "black" }, a, f, snap(&ctx.board))
+                    }
+                })
+            }
             "genlx" => {
                 // a panic in the middle of a make/unmake pair must not leave the harness's board changed
                 let saved = ctx.board.clone();
@@ -1397,8 +1412,9 @@ fn schedules(e: &mut Exec, rng: &mut Rng, kv: &Args, positions: &[(String, Pos)]
         for d in depths.iter() {
             let mut answers: Vec<(String, String)> = vec![];
             for k in 0..per {
-                let n = pools[rng.below(pools.len())];
-                let mode = if k == 0 { 0 } else { 1 + rng.below(3) };
+                // the two extremes always (one worker; many more workers than root moves), the rest at random
+                let n = if k == 0 { 1 } else if k == 1 { *pools.iter().max().unwrap() } else { pools[rng.below(pools.len())] };
+                let mode = if k <= 1 { 0 } else { 1 + rng.below(3) };
                 let seed = rng.next() % 1_000_000;
                 // fresh context each time, except every third run which reuses the previous one
                 if k % 3 != 2 {
@@ -1412,7 +1428,7 @@ fn schedules(e: &mut Exec, rng: &mut Rng, kv: &Args, positions: &[(String, Pos)]
                 e.tally(&format!("pool-{}", n));
                 e.tally(&format!("mode-{}", mode));
                 if r.contains("CONFLICT[") {
-                    let msg = format!("! C09 a shared-cache key received two different values under `{}` at depth {} in [{}]: {}", op, d, p.line(), r);
+                    let msg = format!("! {} a shared-cache key received two different values under `{}` at depth {} in [{}]: {}", kv.get("pid", "C09"), op, d, p.line(), r);
                     e.line(&msg);
                 }
                 if r.contains("PANIC") {
@@ -1423,7 +1439,7 @@ fn schedules(e: &mut Exec, rng: &mut Rng, kv: &Args, positions: &[(String, Pos)]
             }
             for (op, a) in answers.iter().skip(1) {
                 if *a != answers[0].1 {
-                    let msg = format!("! C09 schedules disagree at depth {} in [{}]: `{}` gives [{}] but `{}` gives [{}]", d, p.line(), answers[0].0, answers[0].1, op, a);
+                    let msg = format!("! {} schedules disagree at depth {} in [{}]: `{}` gives [{}] but `{}` gives [{}]", kv.get("pid", "C09"), d, p.line(), answers[0].0, answers[0].1, op, a);
                     e.line(&msg);
                     break;
                 }
@@ -1663,6 +1679,50 @@ fn mating_net_positions(rng: &mut Rng, count: usize) -> Vec<(String, Pos)> {
         }
     }
     v
+}
+
+/// C02: sibling positions with the SAME occupancy and a different piece kind on one square (the four
+/// promotions of one pawn; a capture by one of several pieces), visited one after the other with
+/// single-colour attack-map queries and full queries on the long-lived generator
+fn siblings(e: &mut Exec, rng: &mut Rng, kv: &Args, positions: &[(String, Pos)]) {
+    let node_ops = e.node_ops.clone();
+    let setups = kv.num("setups", 0) as usize;
+    let mut all: Vec<(String, Pos)> = positions.to_vec();
+    for i in 0..setups {
+        all.push((format!("themed-{}", i), themed_setup(rng)));
+    }
+    for (name, p) in all.iter() {
+        e.exec(&format!("pos {}", p.line()));
+        let ms = e.legal();
+        // groups of moves with the same from/to (promotions) or the same destination (captures by different pieces)
+        let mut groups: HashMap<(usize, usize), Vec<ChessMove>> = HashMap::new();
+        for m in ms.iter() {
+            if matches!(m, ChessMove::PawnPromotion(_)) {
+                groups.entry((idx(m.from_square()), idx(m.to_square()))).or_default().push(m.clone());
+            }
+        }
+        if groups.is_empty() {
+            continue;
+        }
+        e.line(&format!("# siblings {}", name));
+        for (_, g) in groups.iter() {
+            for c in ["w", "b"] {
+                for m in g.iter() {
+                    e.play(m);
+                    e.exec(&format!("attl {}", c));
+                    e.unplay();
+                }
+            }
+            for m in g.iter() {
+                e.play(m);
+                for o in node_ops.iter() {
+                    e.exec(o);
+                }
+                e.unplay();
+            }
+            e.tally("sibling-groups");
+        }
+    }
 }
 
 fn walk_positions(rng: &mut Rng, corpus: &[(String, Pos)], count: usize, max_pieces: usize) -> Vec<(String, Pos)> {
@@ -2213,7 +2273,7 @@ pub fn run(kv: &Args) {
                 repetition(&mut e, &mut r, len, undo);
             }
         }
-        "searches" | "perfts" | "games" | "engine" | "cli" | "schedules" | "revisits" | "rightsrevisits" => {
+        "searches" | "perfts" | "games" | "engine" | "cli" | "schedules" | "revisits" | "rightsrevisits" | "siblings" => {
             let mut positions: Vec<(String, Pos)> = corpus_subset(kv);
             let extra = kv.num("walkpos", 0) as usize;
             let maxp = kv.num("maxpieces", 32) as usize;
@@ -2222,6 +2282,18 @@ pub fn run(kv: &Args) {
             }
             let corpus = corpus_subset(kv);
             positions.extend(walk_positions(&mut rng, &corpus, extra, maxp));
+            // themed set-ups (pins, en-passant lines, attacked castling squares, corner promotions) as search positions
+            let nsetups = kv.num("themed", 0) as usize;
+            let mut tries = 0;
+            let mut added = 0;
+            while added < nsetups && tries < 50 * (nsetups + 1) {
+                tries += 1;
+                let p = themed_setup(&mut rng);
+                if p.cells.iter().filter(|c| c.is_some()).count() <= maxp {
+                    positions.push((format!("themed-{}", added), p));
+                    added += 1;
+                }
+            }
             let nets = kv.num("nets", 0) as usize;
             if nets > 0 {
                 positions = mating_net_positions(&mut rng, nets);
@@ -2238,6 +2310,7 @@ pub fn run(kv: &Args) {
                 "schedules" => schedules(&mut e, &mut r, kv, &positions),
                 "revisits" => revisits(&mut e, &mut r, kv, &positions),
                 "rightsrevisits" => rights_revisits(&mut e, &mut r, kv, &positions),
+                "siblings" => siblings(&mut e, &mut r, kv, &positions),
                 _ => book_and_engine(&mut e, &mut r, kv, &positions),
             }
         }
